@@ -221,8 +221,9 @@ func tryValidate(signer etypes.Signer, tx *appTx) error {
 
 	_, err := etypes.Sender(signer, tx.tx)
 	if err != nil {
-		atomic.StoreInt32(&tx.status, appTxStatusFailed)
+		// publish the error before the status: the executor reads err as soon as it sees Failed
 		tx.err = err
+		atomic.StoreInt32(&tx.status, appTxStatusFailed)
 		return err
 	}
 
